@@ -112,7 +112,22 @@ class H(W.Hooks):
         if schedule_triples(fresh.schedule) != original:
             ctx.violation("c02_replay_fresh_differs",
                           {"got": schedule_triples(fresh.schedule), "want": original})
-        # (b) same dispatcher after reset
+        # (a') fresh dispatcher on an equal instance rebuilt from the dictionary form (driven with
+        # that instance's own operation objects: whether operation objects of another, equal
+        # instance are accepted is not part of the property)
+        if len(r.history) % 3 == 0:
+            from job_shop_lib import JobShopInstance
+            twin_instance = JobShopInstance.from_matrices(**run.instance.to_dict())
+            rebuilt = Dispatcher(twin_instance)
+            for o, m in r.history:
+                rebuilt.dispatch(twin_instance.jobs[r.op_job[o]][r.op_pos[o]], m)
+            ctx.count("replay_on_rebuilt_instance")
+            if schedule_triples(rebuilt.schedule) != original:
+                ctx.violation("c02_replay_fresh_differs",
+                              {"got": schedule_triples(rebuilt.schedule), "want": original,
+                               "where": "fresh dispatcher on from_matrices(**to_dict())"})
+        # (b) same dispatcher after reset (the record is the caller's own copy: whether the
+        # observer's list object itself survives a reset is not part of the property)
         recorded = list(self.hist_obs.history)
         run.d.reset()
         for so in recorded:
